@@ -122,7 +122,7 @@ fn describe(n: usize, m: u128) -> String {
 pub fn run_generator(n: usize, to_file: bool) -> Result<String, String> {
     let scratch = cli::Scratch::new();
     let mut args = vec!["-n".to_string(), n.to_string()];
-    let path = scratch.path("queens.txt");
+    let path = if to_file { scratch.stale("queens.txt") } else { scratch.path("queens.txt") };
     if to_file {
         args.insert(0, path.to_string_lossy().into_owned());
     }
@@ -341,6 +341,199 @@ pub fn check_solver(n: usize, text: &str) -> Result<usize, String> {
     Ok(got.len())
 }
 
+// ------------------------------------------------------------------ large boards
+
+/// an explicit n-queens solution (the classical even/odd construction), verified by the caller
+fn explicit_solution(n: usize) -> Vec<usize> {
+    let mut evens: Vec<usize> = (1..=n).filter(|x| x % 2 == 0).collect();
+    let mut odds: Vec<usize> = (1..=n).filter(|x| x % 2 == 1).collect();
+    match n % 6 {
+        2 => {
+            // swap 1 and 3, move 5 to the end
+            if odds.len() >= 2 {
+                odds.swap(0, 1);
+            }
+            if let Some(p) = odds.iter().position(|x| *x == 5) {
+                let v = odds.remove(p);
+                odds.push(v);
+            }
+        }
+        3 => {
+            if let Some(p) = evens.iter().position(|x| *x == 2) {
+                let v = evens.remove(p);
+                evens.push(v);
+            }
+            for w in [1usize, 3] {
+                if let Some(p) = odds.iter().position(|x| *x == w) {
+                    let v = odds.remove(p);
+                    odds.push(v);
+                }
+            }
+        }
+        _ => {}
+    }
+    evens.extend(odds);
+    evens.iter().map(|c| c - 1).collect()
+}
+
+fn is_solution_cols(n: usize, queens: &[(usize, usize)]) -> bool {
+    if queens.len() != n {
+        return false;
+    }
+    for i in 0..queens.len() {
+        for j in (i + 1)..queens.len() {
+            let (a, b) = (queens[i], queens[j]);
+            if a == b || a.0 == b.0 || a.1 == b.1 || a.0.abs_diff(b.0) == a.1.abs_diff(b.1) {
+                return false;
+            }
+        }
+    }
+    true
+}
+
+/// boards too large for bit masks / enumeration: well-formedness, exact variable set, and
+/// classification agreement on constructed and sampled assignments
+pub fn check_large(n: usize, seed: u64, evals: usize) -> Result<u64, Violation> {
+    let cj = json!({"kind": "queens-large", "n": n});
+    let v = |m: String| Violation::new(m, cj.clone());
+    let text = run_generator(n, false).map_err(|e| v(e))?;
+    let parsed = rparse::parse_text(text.as_bytes()).map_err(|e| v(format!("n={}: the output is not a well-formed formula: {}", n, e)))?;
+    if n <= 64 {
+        // (ParsedFormula::new is quadratic in the formula size: its acceptance is checked up to n = 64 only)
+        front::parse(text.as_bytes(), None).map_err(|e| v(format!("n={}: rsbdd's parser rejects the output: {}", n, e)))?;
+    }
+    let idents: BTreeSet<String> = rlex::identifiers(&parsed.tokens).into_iter().collect();
+    let want: BTreeSet<String> = (0..n * n).map(|k| format!("v_{}", k)).collect();
+    if idents != want {
+        return Err(v(format!(
+            "n={}: the formula mentions {} names instead of exactly v_0..v_{} (e.g. {:?})",
+            n,
+            idents.len(),
+            n * n - 1,
+            idents.symmetric_difference(&want).take(4).collect::<Vec<_>>()
+        )));
+    }
+    // constraints as lists of squares
+    let mut terms = Vec::new();
+    flatten_and(&parsed.ast, &mut terms);
+    let mut cons: Vec<(Vec<usize>, CntOp, u64)> = Vec::new();
+    for t in terms {
+        match t {
+            RAst::True => {}
+            RAst::CountConst(op, l, k) => {
+                let mut sq = Vec::new();
+                for f in l {
+                    match f {
+                        RAst::Var(name) => sq.push(name[2..].parse::<usize>().map_err(|_| v("HARNESS: variable name".into()))?),
+                        _ => return Err(v("HARNESS: unexpected operand shape on a large board".into())),
+                    }
+                }
+                cons.push((sq, *op, *k));
+            }
+            _ => return Err(v("HARNESS: unexpected formula shape on a large board".into())),
+        }
+    }
+    // inverse index: square -> constraints mentioning it (boards are sparse: ~n queens)
+    let mut sq2cons: Vec<Vec<u32>> = vec![Vec::new(); n * n];
+    for (ci, (sq, _, _)) in cons.iter().enumerate() {
+        for s_ in sq {
+            if *s_ >= n * n {
+                return Err(v(format!("n={}: variable v_{} is outside the board", n, s_)));
+            }
+            sq2cons[*s_].push(ci as u32);
+        }
+    }
+    let mut compared = 0u64;
+    let mut counts: Vec<u32> = vec![0; cons.len()];
+    let mut cmp = |queens: &[(usize, usize)]| -> Result<(), Violation> {
+        compared += 1;
+        // the assignment is the SET of occupied squares
+        let distinct: Vec<(usize, usize)> = queens.iter().copied().collect::<BTreeSet<_>>().into_iter().collect();
+        let want = is_solution_cols(n, &distinct);
+        for c in counts.iter_mut() {
+            *c = 0;
+        }
+        for (r, c) in &distinct {
+            for ci in &sq2cons[r * n + c] {
+                counts[*ci as usize] += 1;
+            }
+        }
+        let got = cons.iter().zip(counts.iter()).all(|((_, op, k), c)| op.holds(*c as i128, *k as i128));
+        if got != want {
+            let shown: Vec<&(usize, usize)> = queens.iter().take(12).collect();
+            return Err(v(format!(
+                "n={}: the formula is {} on a placement (first queens {:?}) that {} a solution",
+                n,
+                got,
+                shown,
+                if want { "is" } else { "is not" }
+            )));
+        }
+        Ok(())
+    };
+    let mut rng = Rng::new(mix(seed, n as u64 * 977));
+    // a constructed solution and its symmetric images
+    if n >= 4 {
+        let cols = explicit_solution(n);
+        let base: Vec<(usize, usize)> = cols.iter().enumerate().map(|(r, c)| (r, *c)).collect();
+        if is_solution_cols(n, &base) {
+            let images: Vec<Vec<(usize, usize)>> = vec![
+                base.clone(),
+                base.iter().map(|(r, c)| (*c, *r)).collect(),
+                base.iter().map(|(r, c)| (n - 1 - r, *c)).collect(),
+                base.iter().map(|(r, c)| (*r, n - 1 - c)).collect(),
+                base.iter().map(|(r, c)| (n - 1 - c, n - 1 - r)).collect(),
+            ];
+            for img in &images {
+                cmp(img)?;
+                // near-misses: move / remove / add one queen
+                for _ in 0..(evals / 10).max(5) {
+                    let mut q = img.clone();
+                    let i = rng.below(n);
+                    match rng.below(3) {
+                        0 => q[i] = (q[i].0, rng.below(n)),
+                        1 => {
+                            q.remove(i);
+                        }
+                        _ => q.push((rng.below(n), rng.below(n))),
+                    }
+                    cmp(&q)?;
+                }
+            }
+        }
+    }
+    // attacking pairs in every direction, at the extremes of every line and at random
+    for _ in 0..evals {
+        let (r, c) = (rng.below(n), rng.below(n));
+        let d = 1 + rng.below(n);
+        for (dr, dc) in [(0i64, 1i64), (1, 0), (1, 1), (1, -1)] {
+            let (r2, c2) = (r as i64 + dr * d as i64, c as i64 + dc * d as i64);
+            if r2 >= 0 && c2 >= 0 && (r2 as usize) < n && (c2 as usize) < n {
+                cmp(&[(r, c), (r2 as usize, c2 as usize)])?;
+            }
+        }
+    }
+    for k in 0..n {
+        // the two ends of every diagonal and anti-diagonal
+        for (a, b) in [
+            ((0usize, k), (n - 1 - k, n - 1)),
+            ((k, 0usize), (n - 1, n - 1 - k)),
+            ((0usize, k), (k, 0usize)),
+            ((k, n - 1), (n - 1, k)),
+        ] {
+            if a != b {
+                cmp(&[a, b])?;
+            }
+        }
+    }
+    // random one-queen-per-row placements
+    for _ in 0..evals {
+        let q: Vec<(usize, usize)> = (0..n).map(|r| (r, rng.below(n))).collect();
+        cmp(&q)?;
+    }
+    Ok(compared)
+}
+
 pub fn check_n(n: usize, tier: Tier, seed: u64, solver: bool) -> Result<Report, Violation> {
     let cj = json!({"kind": "queens", "n": n, "solver": solver});
     let v = |m: String| Violation::new(m, cj.clone());
@@ -361,7 +554,7 @@ pub fn run(ctx: &mut Ctx) -> Result<(), Violation> {
                 Oracle: brute-force queens enumerator and the classifier 'exactly n queens, no two sharing a row, column or diagonal'. n <= 4 (quick) / 5 (thorough): exact model-set equality over all 2^(n*n) assignments (formula compiled to mask/popcount constraints from the reference tree). Every n: every reference solution, every attacking pair of squares (alone and inside a full placement), all n^n one-queen-per-row placements (n <= 6 / 7, sampled beyond), near-misses of solutions and random assignments are classified exactly as the reference classifies them. \
                 End to end: `rsbdd -t -ft` on the generated file lists exactly the reference solutions for n <= 6 (quick) / 7 (thorough). Non-trivial = an assignment with >= 2 queens compared; the evidence counts assignments; distinct_nontrivial counts distinct (n, stage) configurations with n >= 4."
         .to_string();
-    ctx.assume("n ranges over 1..8 (quick) / 1..10 (thorough); larger boards are not explored");
+    ctx.assume("exhaustive / enumerated checks for n <= 8 (quick) / 10 (thorough); boards up to 33 (quick) / 200 (thorough) are sampled: constructed solution and its symmetric images, near-misses, attacking pairs at random and at the ends of every line, random row placements");
 
     let nmax = ctx.tier.pick(8usize, 10usize);
     let solver_max = ctx.tier.pick(6usize, 7usize);
@@ -392,11 +585,31 @@ pub fn run(ctx: &mut Ctx) -> Result<(), Violation> {
         Ok(())
     });
     ctx.stage("board-sizes", true, r)?;
+
+    // larger boards: no enumeration, but well-formedness, the exact variable set and
+    // classification agreement on constructed solutions, near-misses, attacking pairs and samples
+    let large: Vec<usize> = match ctx.tier {
+        Tier::Quick => vec![9, 11, 12, 13, 16, 17, 20, 33, 256],
+        Tier::Thorough => vec![9, 11, 12, 13, 14, 15, 16, 17, 18, 20, 24, 32, 33, 50, 64, 100, 128, 200, 255, 256, 257, 300],
+    };
+    let r = par_jobs(ctx, &large, |n, st| {
+        let evals = if *n <= 40 { 3000 } else { 300 };
+        let compared = check_large(*n, seed, evals)?;
+        st.evals(compared);
+        st.class_n(&format!("large-board-assignments-n{}", n), compared);
+        st.nontrivial(mix(*n as u64, 7));
+        st.nt_sample(|| json!({"kind": "queens-large", "n": n, "assignments_compared": compared}));
+        Ok(())
+    });
+    ctx.stage("large-boards-sampled", false, r)?;
     Ok(())
 }
 
 pub fn replay(case: &Value) -> Check {
     match case["n"].as_u64() {
+        Some(n) if case["kind"].as_str() == Some("queens-large") && (1..=400).contains(&n) => {
+            check_large(n as usize, 0, 300).map(|_| ())
+        }
         Some(n) if (1..=10).contains(&n) => {
             check_n(n as usize, Tier::Quick, 0, case["solver"].as_bool().unwrap_or(false) && n <= 7).map(|_| ())
         }
